@@ -44,6 +44,8 @@ type siteScan struct {
 	order []*astSite
 	// deref obligations (O-C09.1 / O-C09.6) keyed by position+why
 	derefs map[string]*derefOb
+	// in-module callees whose pointer result is dereferenced after the error test: name -> (result index, error index)
+	contracts map[string][2]int
 	// literal analysed as a root right now
 	curLit   *ast.FuncLit
 	curLitFn *FuncSrc
@@ -283,6 +285,16 @@ func (sc *siteScan) deref(pg *PG, ex *explorer, st *Site, pos token.Pos, states 
 			sig, ok := callErrIdx[C.Name]
 			if !ok || sig[0] < 0 || R.Name == strconv.Itoa(sig[0]) {
 				continue
+			}
+			if okNil, _ := c.cut(pg, []*PState{s}, A("-IsNil("+R.Key()+")")); c.P.fn(C.Name) != nil && !okNil {
+				// an in-module callee whose result is used on the strength of the error test alone:
+				// "no error means a usable pointer" is its contract, decided below
+				if sc.contracts == nil {
+					sc.contracts = map[string][2]int{}
+				}
+				if ri, err := strconv.Atoi(R.Name); err == nil {
+					sc.contracts[C.Name] = [2]int{ri, sig[0]}
+				}
 			}
 			errKey := C.Key() + "#" + strconv.Itoa(sig[0])
 			lp = AnyOf(A("+IsNil("+errKey+")"), A("-IsNil("+R.Key()+")"))
@@ -1228,6 +1240,41 @@ func checkC09(c *Check) {
 			n6++
 		}
 		c.add(ob.rule, ob.name+" in "+ob.fn, "dereference dominated by the test", ob.ok, ob.where, ob.detail...)
+	}
+	// the callee's side of O-C09.1 for functions of this module: whenever it returns a nil error, the
+	// pointer its callers go on to dereference is not nil - not the nil literal, and an optional
+	// parsed field only after it was tested
+	var cnames []string
+	for n := range sc.contracts {
+		cnames = append(cnames, n)
+	}
+	sort.Strings(cnames)
+	for _, n := range cnames {
+		ri, ei := sc.contracts[n][0], sc.contracts[n][1]
+		pg := c.pgOf(n)
+		if pg == nil {
+			continue
+		}
+		var det []string
+		for _, rs := range pg.Returns() {
+			if !retNilErr(rs, ei) || ri >= len(rs.Ret) {
+				continue
+			}
+			v := rs.Ret[ri]
+			T := v.T
+			if v.N == -1 || T == nil {
+				continue
+			}
+			switch {
+			case v.N == 1 || (T.isConst() && T.Name == "nil"):
+				det = append(det, c.P.pos(rs.Node.Pos)+": returns a nil pointer together with a nil error")
+			case T.Op == "field" && optionalFields[T.Owner+"."+T.Name] != "":
+				if okc, _ := c.cut(pg, []*PState{rs}, A("-IsNil("+T.Key()+")")); !okc {
+					det = append(det, c.P.pos(rs.Node.Pos)+": returns the optional field "+T.Owner+"."+T.Name+" untested together with a nil error")
+				}
+			}
+		}
+		c.add("O-C09.1", "a nil error from "+shortCallee(n)+" comes with a usable pointer", "the callers dereference result "+strconv.Itoa(ri)+" once the error was tested: no return with a nil error hands back nil or an untested optional field", len(det) == 0, c.P.pos(pg.G.Root.Decl.Pos()), det...)
 	}
 	c.floor("dereferences of values returned with an error", 30, n1)
 	c.floor("dereferences of optional parsed fields", 3, n6)
